@@ -9,6 +9,10 @@ pub const ALPHABET: &[char] = &[
     // non-ASCII characters whose low byte is a significant ASCII character (space, LF, quote, '[', '{', ':', ',', '0', 'a', backslash):
     // a classification done on a truncated `c as u8` shows at once
     '\u{2020}', '\u{010a}', '\u{0122}', '\u{015b}', '\u{017b}', '\u{013a}', '\u{012c}', '\u{0130}', '\u{0161}', '\u{015c}',
+    // characters that a Unicode-aware classification accepts where JSON means ASCII only: Unicode white space
+    // (NBSP, EM SPACE, IDEOGRAPHIC SPACE, NEL), Unicode digits / numerics (ARABIC-INDIC THREE, FULLWIDTH ONE,
+    // SUPERSCRIPT TWO), fullwidth 'e' and minus
+    '\u{a0}', '\u{2003}', '\u{3000}', '\u{85}', '\u{0663}', '\u{ff11}', '\u{b2}', '\u{ff45}', '\u{ff0d}',
 ];
 
 pub const K_NONE: u8 = 0;
